@@ -1,4 +1,5 @@
 import PegVerif.Proofs.LeftRec
+import PegVerif.Proofs.LeftRecShape
 /-
   C07 – `@leftrec` rules terminate and build the left-nested tree of the longest growth.
   Model: `memoBody` (left_recursive branch) / `growLoop` in Eval.lean – the seed-and-grow loop of
@@ -54,5 +55,51 @@ theorem C07_seed_replaced (env : Env) (n : Nat) (r : Rule) (hlr : r.flags.leftRe
 example : ∃ g', parseAdvanced LeftRecExample.envE 12 "E" LeftRecExample.inp 0 =
     some (.ok (LeftRecExample.extE 1 (LeftRecExample.extE 0 LeftRecExample.b0E)) (LeftRecExample.stE 2), g') :=
   LeftRecExample.parse_123
+
+/-! ### the usual shape `A = l:*A xs… | base…`, from the syntax of the grammar (Proofs/LeftRecShape.lean)
+
+  `LRS.LeftRecShape` is purely syntactic (closed by `rfl`/`decide` on a concrete grammar): `A` is `@leftrec`, its
+  first alternative starts with the boxed field `l:*A` followed by `xs ≠ []`, the other alternatives `rest ≠ []`
+  and `xs` only reach rules of a reference-closed set `R` without `@memoize`/`@leftrec` rules (so they cannot
+  reach `A`), no `@check`/`@string` on `A`.  `LRS.Greedy` is the greedy iteration written in the reference
+  semantics only: base match at `pos 0`, `m` strictly growing matches of `xs` from `pos i` to `pos (i+1)`, and
+  the `(m+1)`-th attempt of `xs` fails or makes no progress.  `LRS.NoLeadWs`: the rule is not entered in front
+  of skippable whitespace (see the finding below – this restriction is real). -/
+
+/-- **"accepts exactly `b x*` (greedy) and returns the tree nested to the left"**: for every large enough fuel
+    the parser returns `leftTree` = `ext (m-1) (… (ext 0 base))` and stops at `pos m`. -/
+theorem C07_usual_shape {env : Env} {r : Rule} {A l : String} {xs rest : List Expr} {R : List String}
+    {F : List FieldDesc} {fl : FieldDesc} {pos : Nat → St} {fs0 : Parsed} {fsx : Nat → Val → Parsed} {m : Nat}
+    (H : LRS.LeftRecShape env r A l xs rest R F fl) (inp : List UInt8) (u : Nat)
+    (hws : LRS.NoLeadWs env u r (St.new inp))
+    (G : LRS.Greedy env u r A l xs rest F fl (St.new inp) pos fs0 fsx m) :
+    ∃ (se : St) (N : Nat), Spec.clr se = pos m ∧ ∀ n, N ≤ n → ∃ g',
+      parseAdvanced env n A inp u = some (.ok (LRS.leftTree r A (St.new inp) pos fs0 fsx m) se, g') :=
+  LRS.shape_parse H inp u hws G
+
+/-- each extension holds the previous result in its recursive field (`Some(Box(prev))` for the usual
+    single-type optional field) -/
+theorem C07_extension_holds_previous {env : Env} {u : Nat} {r : Rule} {A l : String} {xs rest : List Expr}
+    {F : List FieldDesc} {fl : FieldDesc} {s : St} {pos : Nat → St} {fs0 : Parsed} {fsx : Nat → Val → Parsed} {m : Nat}
+    (G : LRS.Greedy env u r A l xs rest F fl s pos fs0 fsx m) (hr : LRS.RecFieldOnly env F l A xs rest)
+    (i : Nat) (hi : i < m) (v : Val) : (fsx i v).get l = some (LRS.recVal fl A v) :=
+  LRS.Greedy.rec_field G hr i hi v
+
+/-- non-vacuity: the hypotheses hold for `E = l:*E '+' r:Num | b:Num` on "1+2+3" and give the same answer as
+    the direct computation -/
+example : ∃ (se : St) (N : Nat), se.off = 5 ∧ se.rest = [] ∧ ∀ n, N ≤ n → ∃ g',
+    parseAdvanced LeftRecExample.envE n "E" LeftRecExample.inp 0 =
+      some (.ok (LeftRecExample.extE 1 (LeftRecExample.extE 0 LeftRecExample.b0E)) se, g') :=
+  LRS.ShapeExample.parse_123_shape
+
+/-- **`NoLeadWs` cannot be dropped (finding K4).**  With whitespace skipping on, `E = l:*E '+' r:Num | b:Num` on
+    `" 1+2+3"` (one leading blank) returns only `E{b:"1"}` and stops after 2 bytes: the recursive reference is
+    evaluated after the blank, at offset 1, where no seed is planted, so a nested complete parse of `1+2+3`
+    happens there, the outer `'+'` then fails, and the base alternative wins.  (Model level here; the replay on
+    the real generated parser is a known finding of the C07 check.) -/
+example :
+    (match parseAdvanced LeftRecExample.envE 60 "E" [32, 49, 43, 50, 43, 51] 0 with
+     | some (.ok _ s, _) => s.off == 2
+     | _ => false) = true := by decide
 
 end Peg.Props
